@@ -60,7 +60,7 @@ var replayCache = map[string]replayOutcome{}
 
 func runDynamicReplay(eng *Engine, verif string, v OblResult, seed int) (string, bool, bool) {
 	reg := loadReplayRegistry(verif)
-	e, ok := reg[v.O.Func]
+	e, ok := lookupOracle(reg, v.O.Func)
 	if !ok {
 		return "", false, false
 	}
@@ -122,6 +122,24 @@ func runReplayTest(repoDir, verif string, e replayEntry, seed int, obligation st
 	return text, reproduced, true
 }
 
+// lookupOracle finds the oracle registered for a function (exact name, or a
+// "prefix*" entry).
+func lookupOracle(reg map[string]replayEntry, fn string) (replayEntry, bool) {
+	if e, ok := reg[fn]; ok {
+		return e, true
+	}
+	best := ""
+	for k := range reg {
+		if strings.HasSuffix(k, "*") && strings.HasPrefix(fn, strings.TrimSuffix(k, "*")) && len(k) > len(best) {
+			best = k
+		}
+	}
+	if best != "" {
+		return reg[best], true
+	}
+	return replayEntry{}, false
+}
+
 func cmdReplay(args []string) int {
 	if len(args) < 1 {
 		fmt.Fprintln(os.Stderr, "usage: hclverif replay <replay.json>")
@@ -143,7 +161,7 @@ func cmdReplay(args []string) int {
 		fn = obl[:i]
 	}
 	reg := loadReplayRegistry("/verif")
-	e, ok := reg[fn]
+	e, ok := lookupOracle(reg, fn)
 	fmt.Printf("obligation: %s\nwhere: %v\nwhat: %v\nsolver: %v (%v)\n", obl, rec["where"], rec["what"], rec["solver_status"], rec["solver"])
 	if !ok {
 		fmt.Println("no dynamic oracle registered for", fn, "- see solver_output in the replay file")
